@@ -44,6 +44,8 @@ type c15Large struct {
 	base  []string
 	bytes [][]byte
 	full  []string
+	// raw images of segments beyond the first two
+	rawAt, rawCopyAt map[int][]byte
 }
 
 var c15Probe = []uint64{0, 1, 3, 500, 1023, 1024, 1030, c15LargeN - 1}
@@ -134,6 +136,38 @@ func newC15Large() (*c15Large, error) {
 		return nil, err
 	}
 	e.segs = append(e.segs, built)
+	// LS: 130 documents whose first stored block decompresses to 1.4 MiB (whatever a reader keeps
+	// of a large block), loaded from a kept slice
+	{
+		var m []model.Doc
+		for i := 0; i < 130; i++ {
+			v := make([]byte, 11000)
+			x := uint32(i*2654435761 + 99)
+			for j := range v {
+				x = x*1664525 + 1013904223
+				v[j] = byte('a' + (x>>24)%26)
+			}
+			m = append(m, model.Doc{gen.IDField("s", i), {N: "a", Len: 1, St: true, Val: v, Terms: []model.Term{{T: "x", Freq: 1}}}})
+		}
+		ls, err := build(m, 1025)
+		if err != nil {
+			return nil, err
+		}
+		img, _, err := persist(ls)
+		if err != nil {
+			return nil, err
+		}
+		raw := exact(img)
+		var l segment.Segment
+		if msg := explore.Guard(func() { l, err = ice.Load(segment.NewDataBytes(raw)) }); msg != "" || err != nil {
+			return nil, fmt.Errorf("%s", errText(msg, err))
+		}
+		// raw images are compared by index: keep the order segs[i] <-> raw[i] for the loaded ones
+		e.segs = append(e.segs, l)
+		e.names = append(e.names, "LS(loaded, 130 documents, a 1.4 MiB stored block)")
+		e.rawAt = map[int][]byte{len(e.segs) - 1: raw}
+		e.rawCopyAt = map[int][]byte{len(e.segs) - 1: append([]byte(nil), img...)}
+	}
 	for _, sg := range e.segs {
 		p, err := c15LargeProbe(sg)
 		if err != nil {
@@ -152,6 +186,9 @@ func newC15Large() (*c15Large, error) {
 func (e *c15Large) diff(full bool) string {
 	for i, sg := range e.segs {
 		if i < len(e.raw) && !bytes.Equal(e.raw[i], e.copyB[i]) {
+			return fmt.Sprintf("raw-image: the byte slice %s was loaded from was modified", e.names[i])
+		}
+		if r, ok := e.rawAt[i]; ok && !bytes.Equal(r, e.rawCopyAt[i]) {
 			return fmt.Sprintf("raw-image: the byte slice %s was loaded from was modified", e.names[i])
 		}
 		p, err := c15LargeProbe(sg)
@@ -287,6 +324,17 @@ func c15LargeOps() []c15LargeOp {
 			return errOf(msg, err)
 		}})
 	}
+	ops = append(ops, c15LargeOp{"stored(LS: 0,1,129,0,127)", func(e *c15Large) error {
+		var err error
+		msg := explore.Guard(func() {
+			for _, d := range []uint64{0, 1, 129, 0, 127} {
+				if err = e.segs[3].VisitStoredFields(d, func(string, []byte) bool { return true }); err != nil {
+					return
+				}
+			}
+		})
+		return errOf(msg, err)
+	}})
 	type mspec struct {
 		segs  []int
 		drops [][]uint32
@@ -294,6 +342,7 @@ func c15LargeOps() []c15LargeOp {
 	for _, ms := range []mspec{
 		{[]int{0}, [][]uint32{{7}}}, {[]int{1}, [][]uint32{nil}}, {[]int{2}, [][]uint32{{0, 1024}}},
 		{[]int{0, 2}, [][]uint32{nil, {1}}}, {[]int{2, 1, 0}, [][]uint32{{3}, nil, {1099}}},
+		{[]int{3, 0}, [][]uint32{{3}, {1}}}, {[]int{3}, [][]uint32{nil}},
 	} {
 		ms := ms
 		ops = append(ops, c15LargeOp{fmt.Sprintf("merge(%v,drops=%v)", ms.segs, ms.drops), func(e *c15Large) error {
